@@ -29,6 +29,10 @@ def run(eng, ctx):
     SH.stub_path(eng, ctx, "C15.D4")
     # the property quantifies over socket-backed streams too: the wrapper's FIFO / readline discipline is a shared obligation
     SOCKET.run(eng, ctx)
+    # ... including socket streams read with chunked transfer-encoding: a chunk boundary inside a frame must not lose it (C12, shared)
+    from . import C12 as CHUNKED
+
+    CHUNKED.run(eng, ctx, with_socket=False)
     # a frame is "returned" only if its payload decodes: a definition naming an undefined field, or a counter / condition that is not
     # decoded earlier, makes every frame of that type raise and (in ignore / log mode) silently disappear from the iteration
     from . import tablerules as TR
